@@ -35,6 +35,8 @@ Theorem defragmenter_as_modelled : extracted_defrag = modelled_defrag.
 Proof. exact defrag_eq. Qed.
 Theorem early_data_as_modelled : extracted_early_data = modelled_early_data.
 Proof. exact early_eq. Qed.
+Theorem gate_calls_as_modelled : extracted_gate_calls = modelled_gate_calls.
+Proof. exact calls_eq. Qed.
 
 (* Language inclusion, full: whatever trace makes the endpoint complete its handshake is a
    sequence the grammar allows -- every configuration, traces of any length. *)
